@@ -1,4 +1,5 @@
 import BtcModel.Tx
+import BtcModel.TxStrict
 /-! Blocks (property C06): 80-byte header, compact target, transaction list. -/
 namespace Btc
 
@@ -62,6 +63,15 @@ def parseBlock (bs : Bytes) : Option (Block × Bytes) :=
   | none => none
   | some (h, r) =>
     match readList parseTx r with
+    | none => none
+    | some (txs, r') => some (⟨h, txs⟩, r')
+
+/-- the block reader with shortest-form counts only (header, transaction count, every transaction) -/
+def parseBlockS (bs : Bytes) : Option (Block × Bytes) :=
+  match readHeader bs with
+  | none => none
+  | some (h, r) =>
+    match readListS parseTxS r with
     | none => none
     | some (txs, r') => some (⟨h, txs⟩, r')
 
